@@ -441,8 +441,9 @@ func (c *ComputedStyle) cascadeValue(key pr.PropKey) (value pr.DeclaredValue, sa
 			logger.WarningLogger.Printf("Ignored `%s: %s`, %s",
 				key, pa.Serialize(solvedTokens), err)
 
-			if pr.Inherited.Has(key.KnownProp) {
+			if pr.Inherited.Has(key.KnownProp) && !c.isRootElement() {
 				// Values in parent_style are already computed.
+				// (the root element has no parent: it "inherits" the initial value)
 				save = true
 				value = parent_style.Get(key)
 			} else {
